@@ -343,8 +343,14 @@ class HeapMixin:
         n = self.llen(ref)
         terms = self.to_terms(v, ref.typ.elem)
         arrs = self.lel_arrays(ref)
-        b = self.fresh('inl', B)
-        w = self.fresh('idx', I)
+        # first-index witness as a *function* of (list contents, length, element): the same list state and
+        # element denote the same witness wherever they are mentioned (callee postcondition vs. caller goal)
+        sorts = [a.sort() for a in arrs] + [I] + [t.sort() for t in terms]
+        tagk = ref.typ.key.replace('[', '_').replace(']', '').replace(',', '_').replace(':', '_')
+        fb = z3.Function('contains_' + tagk, *sorts, B)
+        fw = z3.Function('first_index_' + tagk, *sorts, I)
+        b = fb(*arrs, n, *terms)
+        w = fw(*arrs, n, *terms)
         j = z3.Int('j')
 
         def eq(i):
